@@ -145,6 +145,7 @@ fn gen_case(seed: u64, tier: Tier) -> Case {
 		fail_decode: vec![],
 		fail_seek: vec![],
 		fail_sticky: false,
+		slow: 0,
 	};
 	let device_rate = if long || rng.chance(0.6) { sample_rate } else { *rng.pick(&[8000u32, 44_100, 48_000, 96_000]) };
 	let budget = match tier {
